@@ -9,7 +9,7 @@ floats and for numpy scalars, |impl - model| <= 1e-9 (1 + |model|).
 
 Property predicate P, evaluated on the implementation's own outputs: value at the documented coordinates
 within 1e-3 of the documented optimum; no explored point better than the optimum by more than 1e-3.
-For the nine families whose numeric optimum is not proved (TESTED_ONLY) P is additionally driven by a
+For nine families (DENSE_SEARCH: the three with a numeric clause that is not proved, TESTED_ONLY, and six proved late) P is additionally driven by a
 dense search on the implementation -- that part is a test, and is labelled as such in the evidence.
 """
 import math
@@ -33,8 +33,12 @@ FAMILIES = {
     "Synthetic5D": ("br", [5], 5), "Synthetic10D": ("br", [10], 10),     # not in DESIGN's 21; in scope of the statement
 }
 # numeric optimum not proved in Lean: dense search on the implementation instead (a test)
-TESTED_ONLY = ["Schwefel", "Michaelwicz", "Schubert", "GramacyLee", "Synthetic1D", "Synthetic2D",
-               "Synthetic5D", "Synthetic10D"]      # SixHump: both clauses proved to 1e-3 (Proofs/SixHump.lean); still searched densely
+# at least one numeric clause not proved in Lean (Schwefel, Michalewicz: the bound clause; Schubert: both): a TEST
+TESTED_ONLY = ["Schwefel", "Michaelwicz", "Schubert"]
+# families driven by the dense search on the implementation (the three above and the six whose numeric clauses were
+# proved late with rounded constants / interval arithmetic: Proofs/SixHump.lean, Proofs/BenchNumeric.lean)
+DENSE_SEARCH = ["Schwefel", "Michaelwicz", "Schubert", "GramacyLee", "SixHump", "Synthetic1D", "Synthetic2D",
+                "Synthetic5D", "Synthetic10D"]
 SEPARABLE = ["Schwefel", "Michaelwicz"]     # sum of one-dimensional terms: coordinate-wise line search is global
 MICHALEWICZ_REJECTED = [1, 3, 4, 6, 30]     # the constructor must raise ValueError here (model: optimum = none)
 
@@ -451,8 +455,8 @@ def run(ctx):
     ctx.assumptions += [
         "libm/numpy sin, cos, exp, sqrt, pow approximate the real functions (regime R3); agreement with Lean's Float within 1e-9 (1+|v|) is tested, not proved",
         "finite-float clause is sampled (the real model has no overflow)",
-        "TESTED by dense search on the implementation, not proved: the bound clause of Synthetic1D, Synthetic2D, Synthetic5D, "
-        "Synthetic10D (their value clause is proved) and both numeric clauses of Schwefel, Michaelwicz, Schubert, GramacyLee",
+        "TESTED by dense search on the implementation, not proved: the bound clause of Schwefel and Michaelwicz (their value clause "
+        "is proved: Schwefel n <= 1000, Michalewicz n = 2) and both numeric clauses of Schubert",
         "XinSheYang3: the uniform(0,1) draws are recorded from the implementation and fed to the model; theorem holds for every draw in [0,1]",
     ]
     ctx.extra["tested_only"] = list(TESTED_ONLY)
@@ -591,7 +595,7 @@ def run(ctx):
                 if mo["coords"] is not None:
                     starts.append(list(mo["coords"]))
                 bx, bv = quick_descent(ctx, name, nn, mo, "float", starts, 1500 if nn <= 10 else 400)
-                if name in TESTED_ONLY and nn <= 10 and not better(bv, mo["opt"], mo["minimised"]):
+                if name in DENSE_SEARCH and nn <= 10 and not better(bv, mo["opt"], mo["minimised"]):
                     bx, bv, _ = dense_search(ctx, name, nn, mo)
                     if not better(bv, mo["opt"], mo["minimised"]) and abs(bv - mo["opt"]) > TOL:
                         found = (nn, bx, "optimum-not-attained", "%s(dimension=%d): the documented optimum %r is not attained on the box; best "
@@ -611,7 +615,7 @@ def run(ctx):
 
     # ---- 4. dense search on the implementation for the families whose optimum is not proved (a TEST)
     searched = {}
-    for name in TESTED_ONLY:
+    for name in DENSE_SEARCH:
         if name in failed_families or name in broken:
             continue
         dims = [n for (nm, n) in metas if nm == name]
@@ -641,7 +645,7 @@ def run(ctx):
 
     # ---- 5. cheap descent on the implementation for the proved families as well (bound clause, both kinds)
     for (name, n), mo in metas.items():
-        if name in TESTED_ONLY or name in failed_families or n > 10 or (ctx.quick and n not in (1, 2, 5)):
+        if name in DENSE_SEARCH or name in failed_families or n > 10 or (ctx.quick and n not in (1, 2, 5)):
             continue
         kind = "numpy" if rng.random() < 0.5 else "float"
         starts = [[rng.uniform(lo, hi) for lo, hi in mo["box"]] for _ in range(1 if ctx.quick else 4)]
